@@ -289,6 +289,10 @@ func (u *uploader) ListMultipartUploads(bucket string, marker *UploadListMarker,
 	var seenPrefixes = map[string]bool{}
 	var match PrefixMatch
 
+	// exhausted: the iteration below ran off the end of the index (asking the
+	// iterator again after that would start over from the first key)
+	var exhausted = true
+
 	for iter.Next() {
 		object := iter.Key().(string)
 		uploads := iter.Value().([]*multipartUpload)
@@ -331,6 +335,7 @@ func (u *uploader) ListMultipartUploads(bucket string, marker *UploadListMarker,
 							result.NextUploadIDMarker = uploads[idx+1].ID
 							result.NextKeyMarker = object
 						}
+						exhausted = false
 						goto done
 					}
 				}
@@ -341,7 +346,7 @@ func (u *uploader) ListMultipartUploads(bucket string, marker *UploadListMarker,
 done:
 	// If we did not truncate while in the middle of an object's upload ID list,
 	// we need to see if there are more objects in the outer iteration:
-	if !truncated {
+	if !truncated && !exhausted {
 		for iter.Next() {
 			object := iter.Key().(string)
 			// a key that is rolled up into a common prefix is an entry that
